@@ -92,6 +92,13 @@ def gen_scenarios(tier, seed):
                 add(mk(rng, family="cbsend", pool=pool, pool2=rng.choice([1, 2]) if ck == 2 else 0, caller_kind=ck,
                        caller_idx=rng.below(pool) if ck == 1 else 0, api=1, flags=fl, nb=rng.choice([1, 4, 20]), pass_src=rng.below(2),
                        cb_work_us=rng.choice([0, 50, 300]), perturb=rng.choice([0, 100, 400]), sleep_us=rng.choice([100, 1000])))
+    # B2: the one-thread pool has shortcuts of its own in both entry points: every caller kind x both APIs x the self flags
+    for api in (0, 1):
+        for ck in (0, 1, 2):
+            for fl in (0, F_SELF_SKIP, F_SELF_DIRECT):
+                f2 = fl | ((F_SYNC if rng.below(2) else 0) if api == 0 else 0)
+                add(mk(rng, family="one-thread-pool", pool=1, pool2=rng.choice([1, 2]) if ck == 2 else 0, caller_kind=ck, caller_idx=0,
+                       api=api, flags=f2, nb=rng.choice([1, 3]), pass_src=rng.below(2), cb_work_us=rng.choice([0, 50])))
     # C: subsets of threads not running
     for i in range(16 * scale):
         pool = rng.choice([2, 3, 4, 8])
